@@ -4,7 +4,6 @@ CONSTANTS
   Items = {"x1"}
   MaxLen = 1
   MaxSub = 1
-  UseDesign = TRUE
 INVARIANT RleInverse
 INVARIANT RleCodeOK
 INVARIANT RleInLump
